@@ -2,12 +2,20 @@ package gedcom
 
 import (
 	"fmt"
+	"sync"
 	"time"
 )
 
 // FamilyNode represents a family.
 type FamilyNode struct {
 	*simpleDocumentNode
+
+	// cacheMutex guards the four fields below. The same family is read by
+	// several goroutines when individuals are compared or pages are rendered
+	// with more than one job. While it is held only the children of this
+	// family are looked at: no method of another node or of the document is
+	// called.
+	cacheMutex                sync.Mutex
 	cachedHusband, cachedWife bool
 	husband                   *HusbandNode
 	wife                      *WifeNode
@@ -15,8 +23,7 @@ type FamilyNode struct {
 
 func newFamilyNode(document *Document, pointer string, children ...Node) *FamilyNode {
 	return &FamilyNode{
-		newSimpleDocumentNode(document, TagFamily, "", pointer, children...),
-		false, false, nil, nil,
+		simpleDocumentNode: newSimpleDocumentNode(document, TagFamily, "", pointer, children...),
 	}
 }
 
@@ -25,6 +32,9 @@ func (node *FamilyNode) Husband() (husband *HusbandNode) {
 	if node == nil {
 		return nil
 	}
+
+	node.cacheMutex.Lock()
+	defer node.cacheMutex.Unlock()
 
 	if node.cachedHusband {
 		return node.husband
@@ -49,6 +59,9 @@ func (node *FamilyNode) Wife() (wife *WifeNode) {
 	if node == nil {
 		return nil
 	}
+
+	node.cacheMutex.Lock()
+	defer node.cacheMutex.Unlock()
 
 	if node.cachedWife {
 		return node.wife
@@ -152,8 +165,10 @@ func (node *FamilyNode) SetHusband(individual *IndividualNode) *FamilyNode {
 		}
 		
 		DeleteNodesWithTag(node, TagHusband)
+		node.cacheMutex.Lock()
 		node.husband = nil
 		node.cachedHusband = true
+		node.cacheMutex.Unlock()
 		return node
 	}
 	
@@ -178,8 +193,10 @@ func (node *FamilyNode) SetWife(individual *IndividualNode) *FamilyNode {
 		}
 		
 		DeleteNodesWithTag(node, TagWife)
+		node.cacheMutex.Lock()
 		node.wife = nil
 		node.cachedWife = true
+		node.cacheMutex.Unlock()
 		return node
 	}
 
@@ -197,7 +214,9 @@ func (node *FamilyNode) SetWifePointer(pointer string) *FamilyNode {
 	}
 
 	node.AddNode(newNode(nil, node, TagWife, value, ""))
+	node.cacheMutex.Lock()
 	node.cachedWife = false
+	node.cacheMutex.Unlock()
 
 	return node
 }
@@ -211,7 +230,9 @@ func (node *FamilyNode) SetHusbandPointer(pointer string) *FamilyNode {
 
 	husbandNode := newNode(nil, node, TagHusband, value, "")
 	node.AddNode(husbandNode)
+	node.cacheMutex.Lock()
 	node.cachedHusband = false
+	node.cacheMutex.Unlock()
 
 	return node
 }
@@ -246,10 +267,12 @@ func (node *FamilyNode) childrenChanged() {
 }
 
 func (node *FamilyNode) resetCache() {
+	node.cacheMutex.Lock()
 	node.cachedHusband = false
 	node.cachedWife = false
 	node.husband = nil
 	node.wife = nil
+	node.cacheMutex.Unlock()
 }
 
 func (node *FamilyNode) childrenBornBeforeParentsWarnings() (warnings Warnings) {
